@@ -10,6 +10,7 @@ import (
 	"hash"
 	"net"
 	"runtime"
+	"strings"
 
 	"golang.org/x/crypto/bcrypt"
 	"golang.org/x/crypto/pbkdf2"
@@ -41,6 +42,15 @@ func ConstantTimeCompare(a, b string) bool {
 }
 
 func (p Password) Match(pw string) (bool, error) {
+	if p.Type == "pbkdf2" || p.Type == "bcrypt" {
+		// HMAC pads its key with NUL bytes and bcrypt repeats the
+		// NUL-terminated password: distinct passwords that contain
+		// a NUL byte have the same hash.
+		if strings.IndexByte(pw, 0) >= 0 {
+			return false, nil
+		}
+	}
+
 	switch p.Type {
 	case "":
 		return false, nil
